@@ -250,3 +250,48 @@ def configurator_spec(draw, min_items=3, max_items=7, max_rules=4, explicit_p=60
         rules.append(leaf(draw(st.sampled_from(items))))       # a bare item as top-level rule
     cid = draw(st.sampled_from(["main", "cfg", None]))
     return {"k": "Stingy", "id": cid, "c": rules}
+
+
+@st.composite
+def negation_focus_spec(draw, int_leaves=False, depth=2, outer_connective=True):
+    """A negating connective applied to a threshold node with mixed atom/compound children - the inward-push branch of
+    negate() - with every threshold between 'any' and 'all' equally likely."""
+    pool = draw(leaf_pool(profile="small", max_bool=6, max_int=2 if int_leaves else 0, min_leaves=3))
+    ctx = _Ctx(draw, pool, ("All", "Any", "AtLeast", "Not", "Imply", "XNor"), "small", False, 0, 50, None, positive_only=True)
+
+    def threshold_node(d):
+        n_atoms = draw(st.integers(0, 4))
+        n_comp = draw(st.integers(1, 3)) if d > 0 else 0
+        atoms = draw(st.lists(st.sampled_from(pool), min_size=min(n_atoms, len(pool)), max_size=min(n_atoms, len(pool)),
+                              unique_by=lambda l: l["id"]))
+        comps = []
+        for _ in range(n_comp):
+            if d > 1 and draw(st.integers(0, 2)) == 0:
+                comps.append(threshold_node(d - 1))
+            else:
+                comps.append(_node(ctx, max(d - 1, 0)))
+        ch = atoms + comps
+        if not ch:
+            ch = [draw(st.sampled_from(pool))]
+        n = len(ch)
+        kind = draw(st.sampled_from(["AtLeast", "AtLeast", "AtLeast", "All", "Any"]))
+        node = {"k": kind, "c": ch, "id": ctx.new_id() if draw(st.booleans()) else None}
+        if kind == "AtLeast":
+            node["v"] = draw(st.integers(1, n))
+            node["s"] = draw(st.sampled_from([1, None]))
+        return node
+
+    x = threshold_node(depth)
+    if not outer_connective:
+        return x
+    outer = draw(st.sampled_from(["Not", "Not", "Imply", "XNor", "NotNot", "AllNot"]))
+    other = draw(st.sampled_from(pool))
+    if outer == "Not":
+        return {"k": "Not", "c": [x]}
+    if outer == "Imply":
+        return {"k": "Imply", "id": ctx.new_id() if draw(st.booleans()) else None, "c": [x, other]}
+    if outer == "XNor":
+        return {"k": "XNor", "id": None, "c": [x, other]}
+    if outer == "NotNot":
+        return {"k": "Not", "c": [{"k": "Not", "c": [x]}]}
+    return {"k": "All", "id": None, "c": [{"k": "Not", "c": [x]}, other]}
